@@ -356,10 +356,14 @@ func genCase(rnd *hx.Rand, thorough bool) []string {
 		}
 	}
 	rootTok := tokDig(rootDir.hash, rootDir.size)
-	if rnd.Chance(1, 8) {
-		emit("merge", []string{rootTok}, rootTok) // fails, nothing merged
+	mergeOp := "merge"
+	if rnd.Chance(1, 2) { // this action runs with a file system access monitor
+		mergeOp = "mmerge"
 	}
-	emit("merge", nil, rootTok)
+	if rnd.Chance(1, 8) {
+		emit(mergeOp, []string{rootTok}, rootTok) // fails, nothing merged
+	}
+	emit(mergeOp, nil, rootTok)
 	n := 15 + rnd.Intn(40)
 	for i := 0; i < n; i++ {
 		parent, name, target, digs := g.pickPath(ref)
@@ -374,10 +378,10 @@ func genCase(rnd *hx.Rand, thorough bool) []string {
 			g.lines = append(g.lines, "newroot")
 			ref = &refNode{kind: "dir", children: map[string]*refNode{}}
 			rt := roots[rnd.Intn(len(roots))]
-			emit("merge", nil, tokDig(rt.hash, rt.size))
+			emit(mergeOp, nil, tokDig(rt.hash, rt.size))
 		case rnd.Chance(1, 30):
 			rt := g.dirs[rnd.Intn(len(g.dirs))]
-			emit("merge", f, tokDig(rt.hash, rt.size))
+			emit(mergeOp, f, tokDig(rt.hash, rt.size))
 		case rnd.Chance(1, 25):
 			d := g.dirs[rnd.Intn(len(g.dirs))]
 			t := tokDig(d.hash, d.size)
@@ -385,7 +389,28 @@ func genCase(rnd *hx.Rand, thorough bool) []string {
 			if rnd.Chance(1, 5) {
 				ff = []string{t}
 			}
-			g.lines = append(g.lines, opLine("fetch", ff, t))
+			g.lines = append(g.lines, opLine([]string{"fetch", "mfetch"}[rnd.Intn(2)], ff, t))
+		case rnd.Chance(1, 8):
+			// rename / link between two random places; often onto an existing entry
+			parent2, name2, _, digs2 := g.pickPath(ref)
+			if rnd.Chance(1, 3) {
+				name2 = validNames[rnd.Intn(len(validNames))]
+			}
+			two := append(append([]string{strconv.Itoa(len(parent) + 1)}, full...), toks(append(append([]string(nil), parent2...), name2))...)
+			ff := g.faults(append(digs, digs2...))
+			if rnd.Chance(3, 4) {
+				emit("rename", ff, two...)
+			} else {
+				emit("link", ff, two...)
+			}
+		case kind == "file" && rnd.Chance(1, 6):
+			// the usual way an action replaces an input: write a new file, rename it over
+			tmp := "tmp" + strconv.Itoa(rnd.Intn(3))
+			emit("create", nil, toks(append(append([]string(nil), parent...), tmp))...)
+			emit("rename", f, append([]string{strconv.Itoa(len(parent) + 1)}, append(toks(append(append([]string(nil), parent...), tmp)), full...)...)...)
+			emit("lookup", nil, full...)
+		case (kind == "dir" || kind == "file") && rnd.Chance(1, 10):
+			g.lines = append(g.lines, opLine("digests", f, full...))
 		case kind == "dir" && rnd.Chance(1, 2):
 			emit("readdir", f, full...)
 		case kind == "file" && rnd.Chance(2, 3):
@@ -488,6 +513,24 @@ func genNaiveCase(rnd *hx.Rand) []string {
 			d = g.dirs[rnd.Intn(len(g.dirs))]
 		}
 		g.lines = append(g.lines, "nmerge "+tokDig(d.hash, d.size))
+	}
+	return g.lines
+}
+
+// genRaceCase (VERIF_RACE=1, binary built with -race): many goroutines list one
+// freshly merged tree at the same time, several times over.
+func genRaceCase(rnd *hx.Rand) []string {
+	g := &generator{rnd: rnd, blobs: map[string][]byte{}}
+	g.df = digest.MustNewFunction("verif", digestFunctions["sha256"])
+	g.hashLen = 64
+	g.lines = []string{fmt.Sprintf("opt df=sha256 alloc=%s cache=%d locked=%d", []string{"fuse", "nfs"}[rnd.Intn(2)], []int{0, 2, 64}[rnd.Intn(3)], rnd.Intn(2))}
+	root := g.genDAG(2+rnd.Intn(7), 4+rnd.Intn(14))
+	tok := tokDig(root.hash, root.size)
+	for i := 0; i < 3; i++ {
+		if i > 0 {
+			g.lines = append(g.lines, "newroot")
+		}
+		g.lines = append(g.lines, opLine([]string{"merge", "mmerge"}[rnd.Intn(2)], nil, tok), fmt.Sprintf("cwalk 8 %d", rnd.Intn(1000)))
 	}
 	return g.lines
 }
